@@ -74,7 +74,9 @@ Record state := mkS {
   ph   : Z -> phase;       (* per mode *)
   pri  : Z -> Z;           (* Mode.priority (0 while not started) *)
   act  : list Z;           (* ModeController.active_modes, as mode ids; id order = name order *)
-  reg  : list entry
+  reg  : list entry;
+  hk   : Z -> bool         (* Mode._start_hook_pending (fixes/C07-stale-started-callback.patch): _started ran and the
+                              mode_start() hook of that start has not run yet; cleared by _stopped and by the hook run *)
 }.
 
 Definition upd {A} (f : Z -> A) (m : Z) (v : A) : Z -> A := fun x => if x =? m then v else f x.
@@ -119,27 +121,27 @@ Record result := mkR { r_status : Z; r_events : list (Z * Z) }.
    2 = the operation is not possible in this state (bus contract broken, or code of an idle mode
        registered something): the state is left unchanged *)
 Definition cleanup (fx : bool) (m : Z) (s : state) : state :=
-  mkS (upd (ph s) m Idle) (pri s) (act s) (remove_owned (rm_callback fx) m (reg s)).
+  mkS (upd (ph s) m Idle) (pri s) (act s) (remove_owned (rm_callback fx) m (reg s)) (hk s).
 
 Definition step (fx : bool) (s : state) (o : op) : state * result :=
   match o with
   | Start m p =>
       match ph s m with
       | Idle =>
-          (mkS (upd (ph s) m Starting) (upd (pri s) m p) (act s) (reg s),
+          (mkS (upd (ph s) m Starting) (upd (pri s) m p) (act s) (reg s) (hk s),
            mkR 1 [(m, ev_will_start); (m, ev_starting)])
       | Winding =>
           (* _active and _starting are both False: the start is accepted although the callback of
              mode_<m>_stopped is still outstanding.  Fixed code finishes the old stop first. *)
           let s1 := if fx then cleanup fx m s else s in
-          (mkS (upd (ph s1) m Starting) (upd (pri s1) m p) (act s1) (reg s1),
+          (mkS (upd (ph s1) m Starting) (upd (pri s1) m p) (act s1) (reg s1) (hk s1),
            mkR 1 [(m, ev_will_start); (m, ev_starting)])
       | _ => (s, mkR 0 [])
       end
   | Stop m =>
       match ph s m with
       | Active =>
-          (mkS (upd (ph s) m Stopping) (pri s) (act s) (remove_owned rm_stop m (reg s)),
+          (mkS (upd (ph s) m Stopping) (pri s) (act s) (remove_owned rm_stop m (reg s)) (hk s),
            mkR 1 [(m, ev_will_stop); (m, ev_stopping)])
       | Stopping => (s, mkR 1 [])          (* "do not stop twice": True, nothing posted *)
       | _ => (s, mkR 0 [])                 (* not _active: False (also while Starting) *)
@@ -147,20 +149,26 @@ Definition step (fx : bool) (s : state) (o : op) : state * result :=
   | QStarted m =>
       match ph s m with
       | Starting =>
-          (mkS (upd (ph s) m Active) (pri s) (sort_desc (pri s) (act s ++ [m])) (reg s),
+          (mkS (upd (ph s) m Active) (pri s) (sort_desc (pri s) (act s ++ [m])) (reg s) (upd (hk s) m true),
            mkR 1 [(m, ev_started)])
       | _ => (s, mkR 2 [])
       end
   | CbStarted m =>
       (* runs the mode_start() hook; what the hook registers shows up as Add operations.
-         Fixed code skips the hook when the mode is not active any more. *)
-      (s, mkR (if is_act (ph s m) then 1 else if fx then 0 else 1) [])
+         Fixed code (fixes/C07-stale-started-callback.patch) runs the hook iff it is still due for the current start:
+         _started sets the flag, the hook run and _stopped clear it, so the callback of an EARLIER start (the mode was
+         stopped and started again before it was delivered) and a callback that finds the mode stopped do nothing.
+         Code as found: the hook runs whenever the callback is delivered. *)
+      if fx then
+        if hk s m then (mkS (ph s) (pri s) (act s) (reg s) (upd (hk s) m false), mkR 1 [])
+        else (s, mkR 0 [])
+      else (s, mkR 1 [])
   | QStopped m =>
       match ph s m with
       | Stopping =>
           let p' := upd (pri s) m 0 in
           (mkS (upd (ph s) m Winding) p' (sort_desc p' (remove_z m (act s)))
-               (remove_owned rm_stopped m (reg s)),
+               (remove_owned rm_stopped m (reg s)) (upd (hk s) m false),
            mkR 1 [(m, ev_stopped)])
       | _ => (s, mkR 2 [])
       end
@@ -168,20 +176,20 @@ Definition step (fx : bool) (s : state) (o : op) : state * result :=
       match ph s m with
       | Winding => (cleanup fx m s, mkR 1 [])
       | _ => if fx then (s, mkR 0 [])      (* fixed: a callback that was overtaken by a restart does nothing *)
-             else (mkS (ph s) (pri s) (act s) (remove_owned (rm_callback fx) m (reg s)), mkR 1 [])
+             else (mkS (ph s) (pri s) (act s) (remove_owned (rm_callback fx) m (reg s)) (hk s), mkR 1 [])
       end
   | Add c m k =>
       (* fixed code: code of a mode runs only while the mode is not idle; config players register
          only inside start() *)
       if cls_ok c && (if fx then negb (phase_eqb (ph s m) Idle) &&
                                   (negb (c =? 1) || phase_eqb (ph s m) Starting) else true)
-      then (mkS (ph s) (pri s) (act s) (reg s ++ [mkE c m k]), mkR 1 [])
+      then (mkS (ph s) (pri s) (act s) (reg s ++ [mkE c m k]) (hk s), mkR 1 [])
       else (s, mkR 2 [])
   | Del c m k =>
-      (mkS (ph s) (pri s) (act s) (filter (fun e => negb (entry_eqb e (mkE c m k))) (reg s)), mkR 1 [])
+      (mkS (ph s) (pri s) (act s) (filter (fun e => negb (entry_eqb e (mkE c m k))) (reg s)) (hk s), mkR 1 [])
   end.
 
-Definition init_state : state := mkS (fun _ => Idle) (fun _ => 0) [] [].
+Definition init_state : state := mkS (fun _ => Idle) (fun _ => 0) [] [] (fun _ => false).
 
 Fixpoint run_from (fx : bool) (s : state) (h : list op) : state * list (Z * Z) :=
   match h with
